@@ -61,7 +61,103 @@ def r1(ctx, rep):
                     "the additional site(s) need the same argument", file=ex["file"], line=lines[-1], fn=ex["fn"])
         else:
             rep.ok(k, {"count": n, "invariant": row["reason"][:100]})
+    # literal-index sites: how many are dominated by a length test that implies the index is in range
+    import guards
+    idx_guarded = {}
+    for sdict in sites:
+        if sdict["cls"] != "Vec[]" or not sdict["step"].endswith("[lit]"):
+            continue
+        sf = syn.fn_at(sdict["file"], sdict["l"])
+        if not sf or "body" not in sf:
+            continue
+        par = guards.parents(sf["body"])
+        for n in walk(sf["body"]):
+            if n.get("k") == "index" and n["l"] == sdict["l"] and n["i"].get("k") == "lit":
+                g = index_guard(n, par)
+                key = sdict["key"]
+                d = idx_guarded.setdefault(key, {"guarded": 0, "sites": 0})
+                d["sites"] += 1
+                if g:
+                    d["guarded"] += 1
+                break
+    for key, d in sorted(idx_guarded.items()):
+        row = rows.get(key)
+        want = (row or {}).get("guarded", 0)
+        k = "guard:" + "|".join(key)
+        ex = by_key[key][0]
+        rep.check(d["guarded"] >= want, k, f"{key[0]}: {want} literal-index site(s) of `{key[2]}` were dominated by a length test that puts the index in range, now only {d['guarded']}: "
+                  "a guard was weakened or removed (e.g. `len() == 1` became `len() <= 1`), so the index can be out of bounds", file=ex["file"], line=ex["l"], fn=ex["fn"])
     rep.note(f"{len(sites)} panic-capable sites in {len(counts)} classes")
+
+
+def index_guard(node, par):
+    """Is `X[k]` (k literal) dominated by a test implying X.len() > k ?"""
+    from synq import lit_val as _lv
+    var = show(node["e"])
+    k = _lv(node["i"])
+    if not isinstance(k, int):
+        return None
+    lenexpr = f"{var}.len()"
+    cur = node
+    import guards
+    while True:
+        p = par.get(id(cur))
+        if p is None:
+            return None
+        kind = p.get("k")
+        if kind == "if":
+            c = p["c"]
+            in_then = p.get("t") is cur or guards._contains(p.get("t"), cur)
+            in_else = p.get("e") is not None and (p["e"] is cur or guards._contains(p["e"], cur))
+            for cc in conj(c):
+                if cc.get("k") == "bin" and show(cc["lhs"]) == lenexpr:
+                    n = _lv(cc["rhs"])
+                    if isinstance(n, int):
+                        op = cc["op"]
+                        if in_then and ((op == "==" and n > k) or (op == ">" and n >= k) or (op == ">=" and n > k)):
+                            return f"if {show(cc)}"
+                        if in_else and ((op == "<" and n > k) or (op == "<=" and n >= k) or (op == "!=" and False)):
+                            return f"else of if {show(cc)}"
+                if in_then and cc.get("k") == "un" and cc["op"] == "!" and show(cc["e"]) == f"{var}.is_empty()" and k == 0:
+                    return "if !is_empty()"
+        if kind == "match" and show(p["e"]) == lenexpr:
+            for arm in p["arms"]:
+                if arm is cur or guards._contains(arm["body"], cur):
+                    from synq import pat_head as _ph
+                    h = _ph(arm["pat"])
+                    if isinstance(h, tuple) and h[0] == "lit" and str(h[1]).isdigit() and int(h[1]) > k:
+                        return f"match {lenexpr} arm {h[1]}"
+        if kind == "block":
+            idx = None
+            for i, st in enumerate(p["s"]):
+                if st is cur or guards._contains(st, cur):
+                    idx = i
+                    break
+            if idx is not None:
+                for st in p["s"][:idx]:
+                    if st.get("k") == "if" and st.get("e") is None and guards._diverges(st["t"]):
+                        for cc in disj(st["c"]):
+                            if show(cc) == f"{var}.is_empty()" and k == 0:
+                                return "after `if is_empty() { return }`"
+                            if cc.get("k") == "bin" and show(cc["lhs"]) == lenexpr and isinstance(_lv(cc["rhs"]), int):
+                                n, op = _lv(cc["rhs"]), cc["op"]
+                                if (op == "<" and n > k) or (op == "<=" and n >= k) or (op == "!=" and n > k) or (op == "==" and n <= k and False):
+                                    return f"after `if {show(cc)} {{ return }}`"
+        if kind in ("closure", "item_fn"):
+            return None
+        cur = p
+
+
+def conj(c):
+    if c.get("k") == "bin" and c["op"] == "&&":
+        return conj(c["lhs"]) + conj(c["rhs"])
+    return [c]
+
+
+def disj(c):
+    if c.get("k") == "bin" and c["op"] == "||":
+        return disj(c["lhs"]) + disj(c["rhs"])
+    return [c]
 
 
 def r2(ctx, rep):
@@ -149,6 +245,39 @@ def r4(ctx, rep):
         rep.ok("none", nontrivial=False)
 
 
+def r5(ctx, rep):
+    import flow
+    rep.rule("C12.R5", "hand-written scanning loops make progress on every iteration", floor=3)
+    syn = ctx.syn
+    n = 0
+    for f in syn.fns:
+        if f["crate"] not in ("prqlc", "prqlc_parser") or "body" not in f or "/debug/" in f["file"]:
+            continue
+        for lp in walk(f["body"]):
+            if lp.get("k") not in ("while", "loop"):
+                continue
+            cond = show(lp.get("c"), maxdepth=6) if lp.get("k") == "while" else ""
+            body_txt = show_stmts_all(lp["body"])
+            # a cursor loop: the condition (or the body) peeks at an input cursor
+            peeks = "input.peek()" in cond or (lp["k"] == "loop" and "input.peek()" in body_txt)
+            if not peeks:
+                continue
+            n += 1
+
+            def consumes(x):
+                return (x.get("k") == "mcall" and x["m"] in ("next", "skip", "rewind") and show(x["r"]) == "input") or \
+                       (x.get("k") == "call" and last_seg(show(x["f"])) == "parse_escape_sequence")
+            bad = flow.loop_progress(lp["body"], consumes)
+            rep.check(not bad, f"progress:{f['path']}:{n}",
+                      f"the loop at line {lp['l']} peeks at the input; on the path(s) {bad} an iteration ends without consuming a character or leaving the loop: the lexer never terminates on such input",
+                      file=f["file"], line=lp["l"], fn=f["path"])
+    rep.check(n >= 3, "cursor-loops", f"expected >= 3 cursor loops in the lexer, found {n}")
+
+
+def show_stmts_all(node):
+    return " ; ".join(show(n, maxdepth=4) for n in walk(node) if n.get("k") in ("mcall", "call"))
+
+
 def run(ctx, rep):
-    for r in (r1, r2, r3, r4):
+    for r in (r1, r2, r3, r4, r5):
         rep.guard(r, ctx)
